@@ -98,6 +98,12 @@ func (p *c16) Gen(seed uint64, i int, tier string) (any, bool) {
 		sc := &C16Scenario{Script: "direct", Sched: sim.Derive(seed, 16, uint64(i), 1), Direct: "auth-first-retry"}
 		sc.Client = ClientCfg{User: genSecret(r, "U"), Pass: genSecret(r, "P"), AuthType: sim.Pick(r, []string{"PLAIN", "LOGIN", "CRAM-MD5", "SCRAM-SHA-256"}), Logger: sim.Pick(r, []string{"capture", "std", "json"})}
 		sc.Server.Caps = []string{"8BITMIME", authCaps(allMechs...)}
+		if r.Chance(1, 3) {
+			// a server that announces no AUTH line (or speaks HELO only); the caller
+			// authenticates anyway
+			sc.Server.Caps = []string{"8BITMIME"}
+			sc.Server.NoEHLO = r.Chance(1, 3)
+		}
 		sc.Server.Auth = refsmtpd.AuthCfg{User: sc.Client.User, Pass: sc.Client.Pass, Salt: r.Bytes(12), Iter: 4, NonceSuffix: "SrvC16"}
 		if r.Chance(2, 3) {
 			sc.Server.Auth.Pass = genSecret(r, "X") // the first attempt is refused
@@ -111,6 +117,12 @@ func (p *c16) Gen(seed uint64, i int, tier string) (any, bool) {
 		sc := &C16Scenario{Script: "direct", Sched: sim.Derive(seed, 16, uint64(i), 1), Direct: "late-debug", ToggleAfter: r.Intn(1200)}
 		sc.Client = ClientCfg{User: genSecret(r, "U"), Pass: genSecret(r, "P"), AuthType: sim.Pick(r, []string{"PLAIN", "LOGIN", "CRAM-MD5", "SCRAM-SHA-256"}), Logger: sim.Pick(r, []string{"capture", "std", "json"})}
 		sc.Server.Caps = []string{"8BITMIME", authCaps(allMechs...)}
+		if r.Chance(1, 3) {
+			// a server that announces no AUTH line (or speaks HELO only); the caller
+			// authenticates anyway
+			sc.Server.Caps = []string{"8BITMIME"}
+			sc.Server.NoEHLO = r.Chance(1, 3)
+		}
 		sc.Server.Auth = refsmtpd.AuthCfg{User: sc.Client.User, Pass: sc.Client.Pass, Salt: r.Bytes(12), Iter: 4, NonceSuffix: "SrvC16"}
 		if r.Chance(1, 4) {
 			sc.Server.Rules = []refsmtpd.Rule{{Verb: "AUTHRESP", Nth: 1 + r.Intn(2), Action: refsmtpd.Action{Code: 535, Text: "authentication credentials invalid"}}}
@@ -143,6 +155,13 @@ func (p *c16) Gen(seed uint64, i int, tier string) (any, bool) {
 		sc.Server.Rules = []refsmtpd.Rule{{Verb: sim.Pick(r, []string{"AUTH", "AUTHRESP"}), Nth: 1, Action: refsmtpd.Action{Kind: "raw", Code: 334, Text: "!!! this is *not* base64 !!!"}}}
 	case "extra-challenge":
 		sc.Server.Rules = []refsmtpd.Rule{{Verb: "AUTHRESP", Nth: 1 + r.Intn(4), Action: refsmtpd.Action{Kind: "raw", Code: 334, Text: base64.StdEncoding.EncodeToString([]byte("one more thing?"))}}}
+	}
+	if (script == "malformed-challenge" || script == "extra-challenge") && r.Chance(1, 2) {
+		// the client gives up with "*"; this server does not honour it and echoes the last
+		// response it got in another 334
+		sc.Server.Auth.EchoOnCancel = true
+	}
+	switch script {
 	case "early-235":
 		// the server gives its verdict one step earlier than the mechanism expects
 		sc.Server.Rules = []refsmtpd.Rule{{Verb: "AUTHRESP", Nth: 1 + r.Intn(3), Action: refsmtpd.Action{Code: 235, Text: "authentication succeeded"}}}
